@@ -71,6 +71,21 @@ def run(ctx):
         for m in mism:
             ctx.violation("search:multifrac:%s" % (m.get("what") or "")[:20], m,
                           what="ids / total over several fractions differ from the first `limit` documents of the order: " + str(m.get("what"))[:120])
+    # which tokens a wildcard leaf selects (the step before any posting list is read): Pattern.tla's families
+    # "match" and "infix" (C13's module) through pattern.Search on an unordered, an ordered and a sealed dictionary
+    pdrv = vlib.build_driver("pat")
+    for fam, cfg in (("match", "Pattern_match.cfg"), ("infix", "Pattern_infix.cfg")):
+        pcf = os.path.join(ctx.scratch, "search-pat-%s.jsonl" % fam)
+        rp = vlib.run_tlc(ctx, "Pattern.tla", cfg, case_file=pcf, timeout=3400)
+        if rp.violated:
+            raise vlib.Infra("TLC: %s violated in Pattern.tla (%s)" % (rp.violated, cfg))
+        vlib.require_tlc_ok(rp, "Pattern %s (for C02)" % cfg)
+        mism, psumm, _ = vlib.run_cases(ctx, pdrv, [], pcf, label="wildcard-" + fam)
+        total["cases"] += psumm["cases"]
+        total["evals"] += psumm["evals"]
+        total["nontrivial"] += psumm["nontrivial"]
+        for m in mism:
+            ctx.violation("search:wildcard:%s:%s" % (fam, m.get("path")), m, what="the tokens a wildcard filter selects differ from the glob reference (Pattern.tla)")
     ctx.cov["traces_validated_against_impl"] = total["cases"]
     ctx.cov["evaluations"] = total["evals"]
     ctx.cov["distinct_nontrivial"] = total["nontrivial"]
